@@ -196,7 +196,8 @@ static void op_hash_seq(World *w, Buf *b) {
     } else if (w->nseq) {
         int i = rnd(w->nseq);
         if (chance(70)) {
-            uint8_t d[200]; int n = rnd(200); for (int k = 0; k < n; k++) d[k] = rnd(256);
+            uint8_t d[200]; int n = chance(45) ? 16 * (1 + rnd(8)) : rnd(200);   /* often whole blocks: a sequence may rest exactly on a block boundary */
+            for (int k = 0; k < n; k++) d[k] = rnd(256);
             cmd_begin(b, ST_SESSIONS, CC_SequenceUpdate); b_u32(b, w->seq[i].h); auth_pw_s(b, ""); b_2b(b, d, n); w_run(w, b);
         } else {
             if (w->seq[i].event) { cmd_begin(b, ST_SESSIONS, CC_EventSequenceComplete); b_u32(b, 16); b_u32(b, w->seq[i].h); b_u32(b, 9 + 9); b_u32(b, RS_PW); b_u16(b, 0); b_u8(b, 0); b_u16(b, 0); b_u32(b, RS_PW); b_u16(b, 0); b_u8(b, 0); b_u16(b, 0); b_2b(b, "e", 1); }
